@@ -345,12 +345,14 @@ def bibtex_prefix(string, num_chars):
     """
     def prefix():
         length = 0
-        for char, brace_level in scan_bibtex_string(string):
-            yield char
-            if char not in '{}':
-                length += 1
-            if length >= num_chars:
-                break
+        brace_level = 0
+        if num_chars > 0:
+            for char, brace_level in scan_bibtex_string(string):
+                yield char
+                if char not in '{}':
+                    length += 1
+                if length >= num_chars:
+                    break
         for i in range(brace_level):
             yield '}'
     return ''.join(prefix())
